@@ -29,7 +29,15 @@ const REL: f64 = 1e-12;
 
 fn roundtrip(k: Kind, a: &Ind) -> Result<(Ind, Vec<u8>), String> {
     let bytes = a.ser()?;
-    let b = Ind::de(k, &bytes)?;
+    // how the bytes travel is chosen from the bytes themselves (a pure function of the case): plain
+    // bincode::deserialize, through an io::Read source, and/or framed between other values of one payload
+    let h = bytes.iter().fold(0xcbf29ce484222325u64, |h, &b| (h ^ b as u64).wrapping_mul(0x100000001b3));
+    let b = match (h >> 20) % 4 {
+        0 => Ind::de(k, &bytes)?,
+        1 => a.roundtrip_via(true, false)?,
+        2 => a.roundtrip_via(false, true)?,
+        _ => a.roundtrip_via(true, true)?,
+    };
     Ok((b, bytes))
 }
 
